@@ -13,15 +13,15 @@ CHECKS = {
  'C02': ('A', 'exploration', 'seeded store round trip under simulation vs exact long-double statistics of the model with fixed precision-derived tolerances', '7 C02',
          'Statistics requests chosen to hit every summary level present are compared with exact statistics of the model: min/max exact after storage conversion, mean within c*eps_store, std within [sqrt(9/10),1]*sigma, multi-window entries within widened extremes, average of means = exact mean.'),
  'C11': ('A', 'exploration', 'seeded store round trip under simulation vs list model with the seek-tail rule', '7 C11',
-         'Annotation programs (0..3 index levels, decimation 2/3/10/100, runs of equal timestamps, all storage types, global/VSR/FSR signals) are read back from -inf and from seek points; delivered lists must be the exact tail required by the statement; stop requests must stop.'),
+         'Annotation programs (0..3 index levels, decimation 1/2/3/10/100, runs of equal timestamps, all storage types, global/VSR/FSR signals with first ids 0, positive and negative) are read back from -inf and from seek points; the delivered list must be a contiguous tail containing every annotation at or after the seek time and at most one earlier; stop requests must stop.'),
  'C12': ('A', 'exploration', 'seeded store round trip under simulation vs list model and exact 128-bit rational interpolation', '7 C12',
          'UTC programs (0,1,2,999..1001 and more entries; decimations; offsets; rates to 1e9) are read back and id<->time conversions are checked against exact rational interpolation within one tick / one sample.'),
  'C13': ('A', 'exploration', 'seeded store round trip under simulation vs definition / user-data model; rejected calls must leave no byte changed', '7 C13',
-         'Sources, signals (ids 1..255, strings absent/empty/UTF-8/long) and user data (0 B .. MiB) round trip; duplicate ids, undefined sources and data for undefined signals must be rejected.'),
+         'Sources, signals (ids 1..255; strings absent, empty, UTF-8, with control and high bytes, long enough to cross the 1 MiB string blocks of reader and writer) and user data (0 B .. MiB) round trip; duplicate ids, undefined sources and data for undefined signals must be rejected, and a definition the writer refuses (a string that cannot fit a block) must leave no trace: the identity rules afterwards are judged against what the writer answered.'),
  'C03': ('B', 'fault_enumeration', 'crash-point enumeration over the simulated write log (process stop after k backend writes and inside write k+1), reopen checked against the submitted-prefix model', '7 C03',
          'Each seeded writer program (several signals/types, 1..4 summary levels, omitted blocks, annotations/UTC/user data interleaved, small decimations) is run once with the backend write log recorded; every boundary and a sample of byte-prefixes of every write (all of them for short writes; quick tier caps the images per program) become crash images that are reopened by the real reader in a forked child. Lengths, samples, statistics, annotations, UTC and user data must agree with the submitted prefix; boundary images with all definitions on disk must open and keep every durable sample. Exhaustive over crash points per program, sampled over programs.'),
  'C04': ('C', 'fault_enumeration', 'stored-bit fault injection on closed files (single/2/3-bit flips, <=32-bit bursts per protected region, zeroed and overwritten ranges, multi-chunk combinations) under three CRC implementations', '7 C04',
-         'Closed files produced by seeded programs are decoded by the independent decoder into protected regions; alterations are applied per region and every reader call on the altered file must fail or return exactly the original content (or a correct prefix after a repair). Small files: every bit position; larger: seeded samples per region and class. Thorough tier repeats under the software CRC build.'),
+         'Closed files produced by seeded programs are decoded by the independent decoder into protected regions; alterations are applied per region and every reader call on the altered file must fail or return exactly the original content (or a correct prefix after a repair); a call that failed is repeated once straight away and held to the same rule. Small files: every bit position; larger: seeded samples per region and class. Thorough tier repeats under the software CRC build.'),
  'C05': ('A', 'exploration', 'seeded writer programs under simulation; every produced file is walked by an independent decoder written from format.h only (own bit-serial CRC-32C), structure and content compared with the model', '7 C05',
          'Chunk framing, CRCs, payload_prev_length, doubly linked lists, head tables, index/summary pairing, timestamps and entry counts per level, END chunk and file header length are checked on every closed file, and the decoded content (definitions, samples, summaries recomputed from samples, annotations, UTC, user data) must equal the model.'),
  'C06': ('D', 'exploration', 'threaded writer under seeded schedules (run-to-block, uniform, PCT, quantum) with stalls, latency, spurious wake-ups, EINTR; applied-call history checked against per-producer submission order, final file against the synchronous writer; own happens-before race detector on a TSan-instrumented build', '7 C06',
@@ -31,7 +31,7 @@ CHECKS = {
  'C08': ('D', 'exploration', 'message ring buffer driven directly (odd seeds) and through the threaded writer (even seeds) with randomised capacity; refinement against a bounded FIFO model incl. wrap marker and free-space accounting', '7 C08',
          'Every alloc/pop sequence over randomised sizes and capacities must behave like a bounded FIFO of byte strings: messages come out once, in order, unaltered; a full queue refuses; the occupancy never exceeds the capacity; no overrun of the ring (ASan, exact-size buffer).'),
  'C09': ('A', 'exploration', 'seeded store round trip with skipped and overlapping sample ids vs model with fill values', '7 C09',
-         'Writes that skip ids must read back the documented fill (NaN for floats, zero for integers) for exactly the skipped ids; overlapping or backward ids must be rejected or handled as documented without disturbing stored samples; statistics over filled ranges follow the model.'),
+         'Writes that skip ids must read back the documented fill (NaN for floats, zero for integers) for exactly the skipped ids; overlapping or backward ids keep the samples already accepted; statistics over float windows that contain skipped samples must describe the samples that are present (min/max exact, mean within their extremes, all-NaN for a window inside a gap).'),
  'C10': ('A', 'exploration', 'seeded misuse programs (mutated ids, types, windows, lengths, extreme parameters, duplicate definitions, wrong-order calls) through reader, writer, threaded writer and copy with exact-size caller buffers under ASan/UBSan(bounds) and the accounting allocator; deterministic step budget as watchdog', '7 C10',
          'No call sequence may crash, overrun a caller buffer or a library allocation, loop forever (edge budget), or leave memory allocated after close (allocator ledger must be empty); process-killing reports are attributed to the library frame that raised them.'),
  'C14': ('A', 'exploration', 'write-once monitor over the SimFS write log of every produced file', '7 C14',
@@ -39,7 +39,7 @@ CHECKS = {
  'C15': ('A', 'exploration', 'seeded programs with on-request and automatic omission; decoder learns which blocks are omitted; reads and statistics compared with the model', '7 C15',
          'Omitted level-0 blocks must not be stored, their summaries must be, statistics must be unaffected, and reading an omitted block must return the documented reconstruction (constant blocks exactly).'),
  'C17': ('A', 'exploration', 'jls_copy under simulation on closed files and on crash images of the same program; reader dump of the original vs reader dump of the copy; copy decoded by the independent decoder and checked against the submitted program', '7 C17',
-         'Closed originals: every reader call must answer identically on original and copy, the copy must be a well-formed closed file written write-once. Unclosed originals: calls must agree, or the copy may extend the answer of the repaired original (tracked as known finding); the copy must never hold anything the program did not submit.'),
+         'Closed originals: every reader call must answer identically on original and copy, the copy must be a well-formed closed file written write-once. Unclosed originals (stops between writes, inside an appending write, and inside an in-place header rewrite): jls_copy must return; calls must agree, or the copy may extend the answer of the repaired original (tracked as known finding); the copy must never hold anything the program did not submit (not judged for the in-place case, where a chunk is lost and the hole is gap fill).'),
  'C19': ('B', 'fault_enumeration', 'same crash-point enumeration as C03; the file left by the (possibly repairing) open is decoded by the independent decoder and reopened twice; SimFS counts mutating calls', '7 C19',
          'A closed undamaged file must not receive a single mutating backend call from any read session; a repaired file must be a well-formed closed file, the second and third open must not modify it and must return exactly what the repairing session returned.'),
 }
